@@ -284,10 +284,22 @@ Theorem C13_corruption_rejected_fetch_reference :
     exists rf q r rest, resolve_ref main rs = Some rf /\ t = (q, r) :: rest /\
       r_status r = 200 /\ c = r_body r /\
       ((rest = [] /\ gen_desc H parse_mt limit r rf false = Some d) \/
-       (r_clen r = None /\ exists q2 r2, rest = [(q2, r2)] /\ r_status r2 = 200 /\
-                                         gen_desc H parse_mt limit r2 rf true = Some d)).
+       (r_clen r = None /\ dig_consistent r (d_dg d) /\
+        exists q2 r2, rest = [(q2, r2)] /\ r_status r2 = 200 /\
+                      gen_desc H parse_mt limit r2 rf true = Some d)).
 Proof. exact man_fetchref_consistent. Qed.
 Print Assumptions C13_corruption_rejected_fetch_reference.
+
+(* blob FetchReference: also when the GET has no Content-Length (descriptor from a HEAD), the
+   digest header of the GET, whose body is returned, must not contradict the digest asked for *)
+Theorem C13_corruption_rejected_blob_fetch_reference :
+  forall (parse_mt : str -> option str) (main : str)
+         (srv : Type) (exch : srv -> request -> srv * response) s rs s' t d c,
+    blob_fetchref parse_mt main srv exch s rs = (s', t, RDescBytes d c) ->
+    exists rf q r rest, resolve_ref main rs = Some rf /\ valid_digest rf = true /\ t = (q, r) :: rest /\
+      r_status r = 200 /\ c = r_body r /\ d_dg d = rf /\ dig_consistent r rf.
+Proof. exact blob_fetchref_consistent. Qed.
+Print Assumptions C13_corruption_rejected_blob_fetch_reference.
 
 (* blob Resolve / Exists *)
 Theorem C13_corruption_rejected_blob_resolve :
@@ -320,7 +332,8 @@ Theorem C13_corruption_rejected_blob_upload :
   forall (srv : Type) (exch : srv -> request -> srv * response) s r1 d c sized s' t,
     complete_push srv exch s r1 d c sized = (s', t, ROk) ->
     exists rp ep q r2, r_loc r1 = Some (rp, ep) /\ t = [(q, r2)] /\ r_status r2 = 201 /\
-                       q_repo q = rp /\ q_ep q = ep /\ q_digest q = Some (d_dg d) /\ q_body q = c.
+                       q_repo q = rp /\ q_ep q = ep /\ q_digest q = Some (d_dg d) /\ q_body q = c /\
+                       (valid_digest (nstr (r_dig r2)) = true -> nstr (r_dig r2) = d_dg d).
 Proof. exact complete_push_consistent. Qed.
 Print Assumptions C13_corruption_rejected_blob_upload.
 
